@@ -2201,6 +2201,16 @@ impl Registry {
                 q.push_back(format!("add_routes {}:{}:{}", o, z, hs(&bad)));
                 q.push_back(format!("add_routes {}:{}:{} {}:{}:{}", a, o, hs(&hops.iter().rev().map(|(x, y)| (*y, *x)).collect::<Vec<_>>()), o, z, hs(&bad)));
                 q.push_back(format!("add_routes {}:{}:", o, a));
+                // degenerate hops (offer asset = ask asset): no pair (x, x) can be registered, so such a route
+                // must be refused, alone and inside an otherwise valid route (seed C19-P)
+                q.push_back(format!("add_routes {}:{}:{}-{}", o, o, o, o));
+                {
+                    let mut deg = hops.clone();
+                    let at = rng.below(deg.len() as u64 + 1) as usize;
+                    let x = if at < deg.len() { deg[at].0 } else { a };
+                    deg.insert(at, (x, x));
+                    q.push_back(format!("add_routes {}:{}:{}", o, a, hs(&deg)));
+                }
                 // mislabelled route (key assets differ from the hops): accepted by the real code
                 q.push_back(format!("add_routes {}:{}:{}", z, o, hs(&hops[..1])));
                 // remove one pair of the chain; the stored route must stop executing
